@@ -73,6 +73,9 @@ def make_matrix(rng, kind, nmax, weighted=True, nmin=5):
         if len(E) < 2:
             n, E, fam = connected_sym(rng, nmax, nmin)
             directed = False
+    if kind in ('sq', 'sym') and rng.random() < 0.2:
+        E = sorted(set(E) | {(v, v) for v in rng.sample(range(n), rng.randint(1, 2))})
+        fam += '+loops'
     if weighted:
         W, _ = gen.random_weights(rng, E, directed=directed, kind=rng.choice(['unit', 'small_int']))
     else:
@@ -82,7 +85,9 @@ def make_matrix(rng, kind, nmax, weighted=True, nmin=5):
 
 def seed_form(rng, d, n, default):
     """d: {node: value}. Returns one of the documented forms: dict / array / list."""
-    form = rng.choice(['dict', 'array', 'list'])
+    form = rng.choice(['dict', 'array', 'list', 'farray'])
+    if form == 'farray':     # a float64 ndarray: the form an implementation is most tempted to use without copying
+        return {'farray': [float(d.get(i, default)) for i in range(n)]}
     if form == 'dict':
         return {'dict': {str(k): v for k, v in d.items()}}
     arr = [d.get(i, default) for i in range(n)]
@@ -197,11 +202,12 @@ def _perm_seed(x, p):
         return None
     if isinstance(x, dict) and 'dict' in x:
         return {'dict': {str(p[int(k)]): v for k, v in x['dict'].items()}}
-    arr = x['array'] if isinstance(x, dict) else x
+    key = 'farray' if isinstance(x, dict) and 'farray' in x else 'array'
+    arr = x[key] if isinstance(x, dict) else x
     out = [None] * len(arr)
     for i, v in enumerate(arr):
         out[p[i]] = v
-    return {'array': out} if isinstance(x, dict) else out
+    return {key: out} if isinstance(x, dict) else out
 
 
 def permute_case(spec, opts, pr, pc=None):
@@ -264,7 +270,7 @@ def block_case(spec, opts):
                 for k, v in x['dict'].items():
                     d[str(off + int(k))] = v
             else:
-                arr = x['array'] if isinstance(x, dict) else x
+                arr = (x.get('array') or x.get('farray')) if isinstance(x, dict) else x
                 for i, v in enumerate(arr):
                     d[str(off + i)] = v
         o2['seeds'] = {'all': {'dict': d}}
